@@ -4,6 +4,7 @@ import (
 	"fmt"
 	"sort"
 	"strings"
+	"unsafe"
 
 	"github.com/openacid/low/bitmap"
 	"github.com/openacid/low/bmtree"
@@ -39,7 +40,7 @@ func init() {
 			"Non-trivial+distinct = hash of (string, from, w) with k >= 1 (at least one bit extracted); PathsOf: hash of (keys, from, h, dedup) with >= 2 keys.",
 		Assumptions: []string{"from >= 0 and 0 <= w <= 32 (stated domain)", "oracle reads bits one at a time, MSB of each byte first"},
 		Flavours:    releaseAnd386,
-		Required: []string{"long-run/calls>=100000-per-function", "arguments-in-read-only-memory", "k=0/beyond-end", "k<w/clamped", "k=w", "from/aligned", "from/unaligned", "span/1", "span/2", "span/3", "span/4", "span/5",
+		Required: []string{"string>=2^28-bytes", "long-run/calls>=100000-per-function", "arguments-in-read-only-memory", "k=0/beyond-end", "k<w/clamped", "k=w", "from/aligned", "from/unaligned", "span/1", "span/2", "span/3", "span/4", "span/5",
 			"w=0", "w=32", "string>=50-bytes", "from>=MaxInt32-32", "pathsof/dedup-hit", "pathsof/dedup-off-repeat", "pathsof/all-ones-first", "pathof/h=0", "pathof/h=32"},
 		Families: func(c *mon.Config) []mon.Family {
 			return []mon.Family{
@@ -67,6 +68,7 @@ func init() {
 				{Name: "pathsof-big", Env: 3, N: 7 * c.Pick(2, 40), Run: c11PathsOfBig},
 				{Name: "pathsof-zoo", Env: 10, N: c.Pick(15000, 3000000), Run: c11PathsOfZoo},
 				lrFamily(c11LongRun),
+				{Name: "huge-string", NoCold: true, N: b2i(c.Base() != "386"), Run: c11HugeString},
 			}
 		},
 	})
@@ -406,4 +408,61 @@ func c11Long(w *mon.W, idx int) {
 	w.Eval(2 * ev)
 	w.Bucket("string>=50-bytes")
 	w.Sample(func() interface{} { return mon.D{"len": len(s), "start_bits": len(froms), "widths": "0..32"} })
+}
+
+// c11HugeString (round 12): strings of 2^28 bytes and more - 8*len(s) no longer fits an int32, so every int32 start bit
+// lies inside the string. Views of zero pages of which only the first and the last kilobyte are written.
+func c11HugeString(w *mon.W, _ int) {
+	r := w.Rng
+	for _, n := range []int{1<<28 - 1, 1 << 28, 1<<28 + 3} {
+		buf := make([]byte, n)
+		for i := 0; i < 1024; i++ {
+			buf[i] = r.Byte()
+			buf[n-1-i] = r.Byte()
+		}
+		s := unsafe.String(&buf[0], n)
+		top := int64(1<<31 - 1)
+		var froms []int64
+		for _, f := range []int64{0, 1, 7, 8, 13, 1000, 1 << 30, 8*int64(n) - 40, 8*int64(n) - 33, 8*int64(n) - 32, 8*int64(n) - 9, 8*int64(n) - 1, 8 * int64(n), top - 40, top - 32, top - 31, top - 8, top} {
+			if f >= 0 && f <= top {
+				froms = append(froms, f)
+			}
+		}
+		var ev int64
+		for _, from := range froms {
+			for _, wd := range []int{0, 1, 7, 8, 9, 31, 32} {
+				if from+int64(wd) > top {
+					continue // from+w must be an int32 to be passed at all
+				}
+				// model on the (at most 5) bytes the span touches
+				lo := from / 8
+				hi := lo + 5
+				if hi > int64(n) {
+					hi = int64(n)
+				}
+				ek, evv := 0, uint64(0)
+				if lo < int64(n) {
+					ek, evv = c11Bits(s[lo:hi], int(from-8*lo), wd)
+				}
+				w.Op, w.A, w.B, w.C = "FromStr32(huge string)", from, int64(wd), int64(n)
+				gk, gv := bitmap.FromStr32(s, int32(from), int32(from+int64(wd)))
+				ev++
+				if int(gk) != ek || gv != evv {
+					w.Fail("FromStr32/huge-string", mon.D{"len_s": n, "from": from, "to": from + int64(wd), "got_k": gk, "got_value": fmt.Sprintf("%#x", gv), "expected_k": ek, "expected_value": fmt.Sprintf("%#x", evv)})
+					return
+				}
+				w.Op = "PathOf(huge string)"
+				if gp, ep := bmtree.PathOf(s, int32(from), int32(wd)), c11PathWord(evv, ek, wd); gp != ep {
+					w.Fail("PathOf/huge-string", mon.D{"len_s": n, "from": from, "h": wd, "got": fmt.Sprintf("%#x", gp), "expected": fmt.Sprintf("%#x", ep)})
+					return
+				}
+				ev++
+			}
+		}
+		w.Eval(ev)
+		w.Tick()
+	}
+	w.Bucket("string>=2^28-bytes")
+	w.Distinct(gen.Hash64(0x2b11, 3))
+	w.Sample(func() interface{} { return mon.D{"string_lengths": []int{1<<28 - 1, 1 << 28, 1<<28 + 3}} })
 }
